@@ -58,7 +58,29 @@ MecabEv ==
             /\ A("C20", "cost-is-sum-of-matching-model-lines",
                  \A r \in 1..(E.nr - 1), j \in 1..(E.nl - 1) : E.costs[j * E.nr + r + 1] = ExpectedCost(d, r, j)))
 
-Next == RewriteEv \/ ExpandEv \/ CorpusEv \/ MecabEv
+(* C19 at tool level: what `tokenize -O mecab` prints is a corpus; `split` distributes exactly its
+   examples over three files with the stated sizes; `evaluate` on the tokenizer's own output
+   reports precision = recall = F1 = 1. *)
+CountIn(exs, x) == Cardinality({i \in 1..Len(exs) : exs[i] = x})
+CliCorpusEv ==
+   /\ Is("clicorpus")
+   /\ LET c == ParseCorpus(E.lines)  n == Len(c.examples)
+          tr == ParseCorpus(E.train)  va == ParseCorpus(E.valid)  te == ParseCorpus(E.test)
+          nv == (n * E.vr8) \div 8  nt == (n * E.tr8) \div 8
+      IN
+      /\ A("C19", "tokenizer-output-is-a-corpus", E.tok_ok /\ c.ok)
+      /\ (c.ok =>
+            /\ A("C19", "split-accepts-tokenizer-output", E.split_ok = (nv + nt <= n))
+            /\ (E.split_ok =>
+                  /\ A("C19", "split-outputs-are-corpora-of-the-stated-sizes",
+                       tr.ok /\ va.ok /\ te.ok /\ Len(va.examples) = nv /\ Len(te.examples) = nt /\ Len(tr.examples) = n - nv - nt)
+                  /\ A("C19", "split-keeps-every-example-exactly-once",
+                       \A x \in RangeOf(c.examples) \cup RangeOf(tr.examples) \cup RangeOf(va.examples) \cup RangeOf(te.examples) :
+                          CountIn(c.examples, x) = CountIn(tr.examples, x) + CountIn(va.examples, x) + CountIn(te.examples, x)))
+            /\ A("C19", "evaluate-accepts-tokenizer-output", E.eval_ok)
+            /\ (n > 0 => A("C19", "tokenizer-agrees-with-itself", E.precision = "1" /\ E.recall = "1" /\ E.f1 = "1")))
+
+Next == RewriteEv \/ ExpandEv \/ CorpusEv \/ MecabEv \/ CliCorpusEv
 Spec == Init /\ [][Next]_l
 Accepted ==
    LET d == TLCGet("stats").diameter IN
